@@ -71,6 +71,9 @@ class PooledCycleResource(Entity):
         self._available = pool_size
         self._active = 0
         self._queue: deque[Event] = deque()
+        # ids of hand-over events: a dequeued item re-sent to this entity while
+        # the unit freed for it stays reserved (neither available nor active)
+        self._handoffs: set[int] = set()
         self._completed = 0
         self._rejected = 0
 
@@ -118,6 +121,12 @@ class PooledCycleResource(Entity):
         )
 
     def handle_event(self, event: Event) -> Generator[float, None, list[Event]] | list[Event]:
+        if event._id in self._handoffs:
+            # A dequeued item arriving with the unit that was reserved for it
+            self._handoffs.discard(event._id)
+            self._available += 1
+            return self._start_cycle(event)
+
         if self._available > 0:
             return self._start_cycle(event)
 
@@ -166,14 +175,18 @@ class PooledCycleResource(Entity):
         # Try to dequeue next waiting item
         if self._queue and self._available > 0:
             next_event = self._queue.popleft()
-            # Schedule dequeued item for immediate processing
-            results.append(
-                Event(
-                    time=self.now,
-                    event_type=next_event.event_type,
-                    target=self,
-                    context=next_event.context,
-                )
+            # Schedule dequeued item for immediate processing.  The freed unit is
+            # reserved for it until the re-sent event arrives: an arrival that is
+            # delivered in between (same instant) must neither overtake the
+            # waiting item nor push it out of a bounded queue.
+            handoff = Event(
+                time=self.now,
+                event_type=next_event.event_type,
+                target=self,
+                context=next_event.context,
             )
+            self._available -= 1
+            self._handoffs.add(handoff._id)
+            results.append(handoff)
 
         return results
